@@ -104,6 +104,11 @@ def c02_over_char():
     return _differs(',/"a"', ("c", "a"))
 
 
+def c02_string_chars():
+    return (_differs('"ab"{(#x)+#y}\'"ab"', _i(194, 196)) or _differs('{x}/"ab"', ("c", "a"))
+            or _differs('0cx{#y}/"ab"', ("i", 98)))
+
+
 # ------------------------------------------------------------------------------------------------- C03 / C04 / C05
 def c03_projection_order():
     return _differs('f::{(100*x)+(10*y)+z};p::f(7;;);q::p(;2);q(3)', ("i", 732))
@@ -333,7 +338,7 @@ PROBES = {
     "C01/min-nested": c01_min_nested, "C01/remainder-nested": c01_rem_nested, "C01/take-matrix-overshoot": c01_take_matrix,
     "C01/group-order": c01_group_order, "C01/match-integers-with-tolerance": c01_match_int,
     "C01/list-cells-in-rectangular-literal": c01_list_cells,
-    "C02/over-single-char-string": c02_over_char,
+    "C02/over-single-char-string": c02_over_char, "C02/string-operands-as-one-letter-strings": c02_string_chars,
     "C03/projection-of-projection-hole-order": c03_projection_order, "C03/dot-f-loses-locals": c03_dotf_locals,
     "C04/parse-cache-skips-module-switch": c04_module_cache,
     "C05/compiled-code-run-on-other-kinds": c05_compiled_kinds, "C05/compiled-reduce-scan-shortcuts": c05_reduce_scan,
